@@ -558,9 +558,17 @@ func c11ambiguous(l, r *c11side) bool {
 	return false
 }
 
+// c11forced: a hand-built case (and the Jobs values it must be run with) for the next c11one.
+var c11forced *c11case
+var c11forcedJobs []int
+
 func c11one(c *Ctx, idx int) {
 	r := c.R
 	cs := c11gen(r)
+	forcedJobs := c11forcedJobs
+	if c11forced != nil {
+		cs, c11forced, c11forcedJobs = c11forced, nil, nil
+	}
 	l, rt := c11build(cs.left, cs.lfam, 0), c11build(cs.right, cs.rfam, 1000)
 	ids := map[*gedcom.IndividualNode]int{}
 	for p, id := range l.ids {
@@ -574,7 +582,9 @@ func c11one(c *Ctx, idx int) {
 	}
 	c.Count(fmt.Sprintf("size:left=%d", (len(l.indis)+3)/4*4))
 	o := c12randOpts(r)
-	if r.Chance(1, 3) { // thresholds at the extremes
+	if forcedJobs != nil {
+		o = c12opts{def: true}
+	} else if r.Chance(1, 3) { // thresholds at the extremes
 		if o.def {
 			o = c12opts{maxYears: c12rat{3, 1}, minSim: c12rat{733, 1000}, minWeighted: c12rat{733, 1000}, iw: c12rat{12, 16}, pw: c12rat{1, 16},
 				sw: c12rat{1, 16}, cw: c12rat{2, 16}, ratio: c12rat{1, 2}, boost: c12rat{0, 1}, prefix: 8, prefPtr: c12rat{733, 1000}}
@@ -661,6 +671,11 @@ func c11one(c *Ctx, idx int) {
 		}
 	}
 	check(ref, 1, 1)
+	for _, j := range forcedJobs {
+		for _, g := range []int{2, 16} {
+			check(c11compare(l, rt, so, j, g), j, g)
+		}
+	}
 	combos := c.N(5, 17)
 	for q := 0; q < combos; q++ {
 		j, g := c11jobs[r.Intn(len(c11jobs))], c11gmps[r.Intn(len(c11gmps))]
@@ -695,6 +710,59 @@ func c11one(c *Ctx, idx int) {
 	c.Nontrivial(refS + "|" + o.wire())
 	if idx < 2 {
 		c.Sample(map[string]interface{}{"documents": docs, "options": o.wire(), "sequential_result": refS})
+	}
+}
+
+// c11dupPositions: a unique identifier duplicated among the LEFT individuals at varied positions. The
+// people have nothing else in common with anybody (names, dates, pointers), every other left individual
+// has its own partner by _UID, so the only question is which of the claimants of the shared right
+// individual wins — the first in the order of the left slice, whatever the number of jobs and however the
+// left slice is divided among the workers (strided: positions i < j with j % Jobs < i % Jobs are visited
+// by a LOWER-numbered worker for j). Each case is run with Jobs = 1 and with the Jobs values for which
+// its positions are of that kind, compared with the sequential result and with the model.
+func c11dupPositions(c *Ctx) {
+	r := c.R.Fork("dup-positions")
+	n := c.N(24, 400)
+	for q := 0; q < n; q++ {
+		J := []int{2, 3, 8, 16, 2, 3}[q%6]
+		i := J - 1 + J*r.Intn(2)
+		if J >= 8 {
+			i = J - 1
+		}
+		j := i + 1 + r.Intn(J-1)
+		claim := []int{i, j}
+		size := j + 1 + r.Intn(4)
+		if r.Chance(1, 3) && size > j+1 { // a third claimant further down
+			claim = append(claim, j+1+r.Intn(size-j-1))
+		}
+		cs := &c11case{kind: []string{"duplicated-unique-id:varied left positions (j % Jobs < i % Jobs)"}}
+		shared := c11uid(0xD000000 + q*7919)
+		isClaim := map[int]bool{}
+		for _, x := range claim {
+			isClaim[x] = true
+		}
+		for x := 0; x < size; x++ {
+			p := c11person{ptr: fmt.Sprintf("L%d", x), name: fmt.Sprintf("Abel%c /Lefthand%d/", 'a'+rune(x%26), x),
+				birth: fmt.Sprintf("%d", 1650+x), death: fmt.Sprintf("%d", 1700+x)}
+			if isClaim[x] {
+				p.uids = []string{shared}
+			} else {
+				p.uids = []string{c11uid(0xE000000 + q*104729 + x)}
+				cs.right = append(cs.right, c11person{ptr: fmt.Sprintf("R%d", x), name: fmt.Sprintf("Zygmunt%c /Quixote%d/", 'z'-rune(x%26), x),
+					birth: fmt.Sprintf("%d", 1900+x), death: fmt.Sprintf("%d", 1960+x), uids: p.uids})
+			}
+			cs.left = append(cs.left, p)
+		}
+		cs.right = append(cs.right, c11person{ptr: "RS", name: "Shared /Target/", birth: "1999", uids: []string{shared}})
+		pm := r.Perm(len(cs.right))
+		sh := make([]c11person, len(cs.right))
+		for a, b := range pm {
+			sh[a] = cs.right[b]
+		}
+		cs.right = sh
+		c11forced = cs
+		c11forcedJobs = []int{J, 2, 3}
+		c11one(c, 1000+q)
 	}
 }
 
@@ -924,11 +992,12 @@ func init() {
 	runners["C11"] = func(c *Ctx) {
 		c.Compare = c11cmp
 		c11skipped = func(s string) { c.Dist[s]++ }
-		c.Rule = "pairs of family-graph documents (edited copy: shared / disjoint / shifted pointers, dropped and added people, typos, identical twins, shared unique ids, a duplicated unique id, empty sides) x options (default and random, thresholds incl. 0 and 1) x Jobs in {0,1,2,3,8,16} x GOMAXPROCS in {1,2,16}; every run goes through a delivery check (Compare in its own goroutine with a time limit; in turn no / unbuffered / buffered Notifier drained as gedcom diff does: it must be closed when Compare returns and the progress complete; empty left, empty right, both empty and single individuals included), is checked for validity, and all runs of a case are compared with the sequential one when no scores tie; cold-cache stress: documents whose only matches are _UID matches, decoded afresh for every run, Jobs {2,3,8,16} x GOMAXPROCS {2,16}, each compared with the sequential matching; large comparisons with 999..2050 result rows (one side empty; equal sides matched by _UID) under a time limit; the model is run on the sequential and on permuted arrival orders; distinct = distinct (sequential result, options)"
+		c.Rule = "pairs of family-graph documents (edited copy: shared / disjoint / shifted pointers, dropped and added people, typos, identical twins, shared unique ids, a duplicated unique id, empty sides; a _UID duplicated among left individuals at varied positions i < j with j % Jobs < i % Jobs, run with those Jobs values) x options (default and random, thresholds incl. 0 and 1) x Jobs in {0,1,2,3,8,16} x GOMAXPROCS in {1,2,16}; every run goes through a delivery check (Compare in its own goroutine with a time limit; in turn no / unbuffered / buffered Notifier drained as gedcom diff does: it must be closed when Compare returns and the progress complete; empty left, empty right, both empty and single individuals included), is checked for validity, and all runs of a case are compared with the sequential one when no scores tie; cold-cache stress: documents whose only matches are _UID matches, decoded afresh for every run, Jobs {2,3,8,16} x GOMAXPROCS {2,16}, each compared with the sequential matching; large comparisons with 999..2050 result rows (one side empty; equal sides matched by _UID) under a time limit; the model is run on the sequential and on permuted arrival orders; distinct = distinct (sequential result, options)"
 		n := c.N(500, 6000)
 		for i := 0; i < n; i++ {
 			c11one(c, i)
 		}
+		c11dupPositions(c)
 		c11cold(c)
 		c11large(c)
 		c11race(c)
